@@ -7,6 +7,8 @@ import (
 	"fmt"
 	"os"
 	"sort"
+	"strconv"
+	"strings"
 
 	"rrverif/harness/extract"
 	"rrverif/harness/hx"
@@ -54,7 +56,39 @@ func main() {
 		n := fs.Int("n", 100, "number of cases")
 		first := fs.Int("first", 0, "first case id")
 		out := fs.String("out", "", "case file to write")
+		inFile := fs.String("in", "", "pre-generated inputs (lines `stream id tokens…`) for replay streams")
 		fs.Parse(os.Args[2:])
+		if *inFile != "" {
+			rs, ok := streams.Replays[*stream]
+			if !ok {
+				fmt.Fprintf(os.Stderr, "unknown replay stream %q\n", *stream)
+				os.Exit(2)
+			}
+			data, err := os.ReadFile(*inFile)
+			if err != nil {
+				fmt.Fprintln(os.Stderr, err)
+				os.Exit(2)
+			}
+			cw, err := hx.NewCaseWriter(*out)
+			if err != nil {
+				fmt.Fprintln(os.Stderr, err)
+				os.Exit(2)
+			}
+			for _, line := range strings.Split(string(data), "\n") {
+				f := strings.Fields(line)
+				if len(f) < 2 {
+					continue
+				}
+				id, _ := strconv.Atoi(f[1])
+				cw.Put(rs(f[2:], id))
+			}
+			streams.CloseWorld()
+			if err := cw.Close(); err != nil {
+				fmt.Fprintln(os.Stderr, err)
+				os.Exit(2)
+			}
+			return
+		}
 		s, ok := streams.Registry[*stream]
 		if !ok {
 			fmt.Fprintf(os.Stderr, "unknown stream %q\n", *stream)
